@@ -15,6 +15,7 @@ import (
 	"pgregory.net/rapid"
 
 	"verif/internal/ev"
+	"verif/internal/kf"
 
 	gmime "verif/internal/gen/mime"
 )
@@ -110,7 +111,7 @@ func drawRaw(t *rapid.T) ([]byte, string) {
 }
 
 func TestRawBytes(t *testing.T) {
-	ev.Checks(5000, 40000)
+	ev.Checks(10000, 40000)
 
 	rapid.Check(t, func(t *rapid.T) {
 		b, class := drawRaw(t)
@@ -122,8 +123,11 @@ func TestRawBytes(t *testing.T) {
 // ---- (ii) well-formed trees --------------------------------------------------------------------------------------------
 
 func treeConfig() gmime.Config {
-	return gmime.Config{MaxBody: ev.Pick(4096, 1<<20), LargePct: ev.Pick(3, 5)}
+	return gmime.Config{MaxBody: ev.Pick(4096, 1<<20), LargePct: ev.Pick(3, 5),
+		// steering away from listed known findings (the full domain comes back when the entry is removed)
+		SimpleGroups: kf.Listed(kfGroupMembers), NoDelimiterPadding: kf.Listed(kfDelimPadding), NoContentTypeComments: kf.Listed(kfCTComment)}
 }
+
 
 func treeLabels(tree *gmime.Tree) []string {
 	ls := make([]string, 0, len(tree.Labels))
@@ -135,11 +139,18 @@ func treeLabels(tree *gmime.Tree) []string {
 }
 
 func TestWellFormedTrees(t *testing.T) {
-	ev.Checks(5000, 30000)
+	ev.Checks(12000, 30000)
 
 	rapid.Check(t, func(t *rapid.T) {
 		tree := gmime.Draw(t, treeConfig())
 		b := tree.Bytes
+
+		for _, l := range tree.Labels {
+			if strings.HasPrefix(l, "steered:") {
+				ev.Excluded(1) // the generator replaced a drawn feature that belongs to a listed known finding
+				break
+			}
+		}
 
 		if err := rfcvalidation.ValidateMessageHeaderFields(b); err != nil {
 			t.Fatalf("generator soundness: APPEND validation rejects a generated root message: %v\n%s", err, escaped(b))
@@ -177,7 +188,7 @@ func pmField(o *outcome, which int) string {
 // ---- (iii) mutations -----------------------------------------------------------------------------------------------------
 
 func TestMutatedTrees(t *testing.T) {
-	ev.Checks(5000, 40000)
+	ev.Checks(12000, 40000)
 
 	rapid.Check(t, func(t *rapid.T) {
 		tree := gmime.Draw(t, gmime.Config{MaxBody: ev.Pick(2048, 65536), LargePct: 2, MaxNodes: 12})
@@ -303,6 +314,27 @@ func sortStrings(s []string) {
 	}
 }
 
+// TestReplays: the committed regression inputs replays/c12/*.eml (minimal inputs of the known findings, hostile
+// hand-written messages, shrunk failures of earlier rounds) through the general oracle.
+func TestReplays(t *testing.T) {
+	if sh, _ := ev.Shard(); sh != 0 {
+		t.Skip("replays run on shard 0 only")
+	}
+
+	files, _ := filepath.Glob(filepath.Join(verifRoot(), "replays", "c12", "*.eml"))
+	sortStrings(files)
+
+	for _, f := range files {
+		b, err := os.ReadFile(f)
+		if err != nil {
+			t.Fatalf("VERIF-INCONCLUSIVE: %v", err)
+		}
+
+		o := check(t, b, "replay")
+		record(b, o, "replay", 0, false)
+	}
+}
+
 // corpus files mutated structurally at the byte level under rapid
 func TestCorpusMutations(t *testing.T) {
 	in := corpusInputs(t)
@@ -322,7 +354,7 @@ func TestCorpusMutations(t *testing.T) {
 		}
 	}
 
-	ev.Checks(1500, 10000)
+	ev.Checks(4000, 10000)
 
 	rapid.Check(t, func(t *rapid.T) {
 		b := append([]byte{}, small[rapid.IntRange(0, len(small)-1).Draw(t, "file")]...)
